@@ -31,16 +31,23 @@ import (
 // instead of using the MSAT array, in the same way that any other stream works.
 func (r *ComDoc) readShortSAT() error {
 	count := r.SectorSize / 4
-	sat := make([]SecID, count*int(r.Header.SSATSectorCount))
-	position := 0
-	for sector := r.Header.SSATNextSector; sector >= 0; sector = r.SAT[sector] {
-		if position >= len(sat) {
+	var sat []SecID
+	block := make([]SecID, count)
+	sectors := 0
+	for sector := r.Header.SSATNextSector; sector >= 0; {
+		if sectors >= int(r.Header.SSATSectorCount) {
 			return errors.New("ssat has more sectors than indicated")
 		}
-		if err := r.readSectorStruct(sector, sat[position:position+count]); err != nil {
+		if err := r.readSectorStruct(sector, block); err != nil {
 			return err
 		}
-		position += count
+		sat = append(sat, block...)
+		sectors++
+		next, err := nextInChain(r.SAT, sector)
+		if err != nil {
+			return err
+		}
+		sector = next
 	}
 	r.SSAT = sat
 	return nil
@@ -87,7 +94,11 @@ func (r *ComDoc) readShortSector(shortSector SecID, buf []byte) (int, error) {
 	bigSectorIndex := int(shortSector) * r.ShortSectorSize / r.SectorSize
 	bigSectorID := r.Files[r.rootStorage].NextSector
 	for i := 0; i < bigSectorIndex; i++ {
-		bigSectorID = r.SAT[bigSectorID]
+		next, err := nextInChain(r.SAT, bigSectorID)
+		if err != nil {
+			return 0, err
+		}
+		bigSectorID = next
 	}
 	// translate to a file position
 	n := r.sectorToOffset(bigSectorID)
